@@ -145,6 +145,9 @@ theorem ginv_hostStep {c : Cfg} {sc : Script} {h : Host} (now : Nat) (hg : GInv 
   | scan => simp only [hostStep]; split
             · exact ginv_frame hg rfl rfl (fun hh => hh)
             · exact hg
+  | destEnd => simp only [hostStep]; split
+               · exact ginv_frame hg rfl rfl (fun hh => hh)
+               · exact ginv_frame hg rfl rfl (fun hh => hh)
   | other => exact hg
 
 theorem ginv_init (c : Cfg) (sc : Script) : GInv c sc (initHost c sc) := by
